@@ -2,10 +2,11 @@ import BibVerif.Wire.Split
 import BibVerif.Wire.AddAll
 import BibVerif.Wire.Stack
 import BibVerif.Wire.Heap
+import BibVerif.Wire.Latex
 namespace Bib.Wire
 
 /-- every command the driver understands -/
 def handlers : List (String × Handler) :=
-  splitHandlers ++ addAllHandlers ++ stackHandlers ++ heapHandlers
+  splitHandlers ++ addAllHandlers ++ stackHandlers ++ heapHandlers ++ latexHandlers
 
 end Bib.Wire
